@@ -179,6 +179,46 @@ def write_cfg(path, constants, invariants=(), spec="Spec", properties=(), constr
     return path
 
 
+def trace_validate(module, cfg, trace, workdir, env_extra=None, timeout=1200, name=None):
+    """TLC trace validation: returns (accepted, states, rejected_event_or_None)."""
+    name = name or (module + "." + os.path.basename(trace))
+    out = os.path.join(workdir, name + ".tlc.out")
+    meta = os.path.join(workdir, name + ".meta")
+    shutil.rmtree(meta, ignore_errors=True)
+    env = dict(os.environ)
+    env["JAVA_TOOL_OPTIONS"] = "-Xss1g -Dtlc2.tool.queue.IStateQueue=StateDeque"
+    env["TRACE"] = trace
+    if env_extra:
+        env.update(env_extra)
+    cmd = ["timeout", str(timeout), "tlc", "-workers", "1", "-metadir", meta, "-cleanup",
+           "-noGenerateSpecTE", "-config", os.path.join("trace", cfg), module + ".tla"]
+    with open(out, "w") as f:
+        p = subprocess.run(cmd, cwd=SPEC, stdout=f, stderr=subprocess.STDOUT, env=env)
+    shutil.rmtree(meta, ignore_errors=True)
+    if p.returncode == 124:
+        raise ToolError("TLC trace validation timed out on " + trace)
+    text = open(out, errors="replace").read()
+    distinct = 0
+    m = re.search(r"(\d+) states generated, (\d+) distinct states found", text)
+    if m:
+        distinct = int(m.group(2))
+    rejected = None
+    m = re.search(r'<<"TRACE-REJECTED", (\d+), (".*")>>', text)
+    if m:
+        try:
+            rejected = {"index": int(m.group(1)), "event": json.loads(json.loads(m.group(2)))}
+        except Exception:
+            rejected = {"index": int(m.group(1)), "event": m.group(2)[:500]}
+    inv = re.search(r"Error: Invariant (\S+) is violated", text)
+    if inv:
+        rejected = rejected or {}
+        rejected["invariant"] = inv.group(1)
+    ok = ("Model checking completed. No error has been found." in text) and rejected is None
+    if not ok and rejected is None:
+        raise ToolError("TLC trace validation failed without a verdict on %s:\n%s" % (trace, text[-3000:]))
+    return ok, distinct, rejected
+
+
 def vh(*args, timeout=3600, check=True, env_extra=None):
     env = dict(os.environ)
     if env_extra:
@@ -261,9 +301,10 @@ class Ctx:
                     log("KNOWN-FINDING: property=%s %s %s" % (self.prop, signature, instance))
                     self.cov["known_findings_observed"].append({"signature": signature, "instance": instance})
                 return False
-        n = len(self.violations) + 1
-        path = os.path.join(REPLAYS, "%s-%d.json" % (self.prop, n))
-        if n <= 20:
+        n = sum(1 for v in self.violations if v == signature)
+        total = len(self.violations) + 1
+        path = os.path.join(REPLAYS, "%s-%d.json" % (self.prop, total))
+        if n < 2 and total <= 40:
             with open(path, "w") as f:
                 json.dump({"property": self.prop, "signature": signature, "instance": instance,
                            "replay": replay}, f, indent=1)
@@ -293,6 +334,10 @@ class Ctx:
         os.makedirs(EVID, exist_ok=True)
         with open(os.path.join(EVID, self.prop + ".json"), "w") as f:
             json.dump(ev, f, indent=1)
+        if self.violations:
+            import collections as _c
+            for sig, n in _c.Counter(self.violations).most_common():
+                log("[%s] violation class %s: %d cases" % (self.prop, sig, n))
         log("[%s] %s tier done in %.1fs: %d violations, %d known findings observed" % (
             self.prop, self.tier, time.time() - self.t0, len(self.violations), len(self.known_hits)))
         return 1 if self.violations else 0
